@@ -152,12 +152,28 @@ def mupdate(o, n):
             .store_uint(o.get_depth(0), 16).store_uint(n.get_depth(0), 16).store_ref(o).store_ref(n).end_cell())
 
 
-def account_cell(rng, addr):
-    return (begin_cell().store_bit(1).store_address(addr)
-            .store_uint(1, 3).store_uint(rng.randint(1, 200), 8).store_uint(1, 3).store_uint(rng.randint(1, 200), 8).store_uint(0, 3)
-            .store_uint(rng.getrandbits(31), 32).store_bit(0)
-            .store_uint(rng.getrandbits(40), 64).store_coins(rng.randint(1, 10 ** 12)).store_bit(0)
-            .store_uint(0, 2).end_cell())
+def account_cell(rng, addr, active=None):
+    b = (begin_cell().store_bit(1).store_address(addr)
+         .store_uint(1, 3).store_uint(rng.randint(1, 200), 8).store_uint(1, 3).store_uint(rng.randint(1, 200), 8).store_uint(0, 3)
+         .store_uint(rng.getrandbits(31), 32).store_bit(0)
+         .store_uint(rng.getrandbits(40), 64).store_coins(rng.randint(1, 10 ** 12)).store_bit(0))
+    if active if active is not None else rng.random() < 0.6:
+        # account_active$1 with a StateInit: no split_depth, no special, code and data by reference, no libraries
+        code = begin_cell().store_uint(rng.getrandbits(64), 64).end_cell()
+        data = begin_cell().store_uint(rng.getrandbits(32), 32).store_ref(begin_cell().store_uint(7, 8).end_cell()).end_cell()
+        return b.store_bit(1).store_bits('00110').store_ref(code).store_ref(data).end_cell()
+    return b.store_uint(0, 2).end_cell()
+
+
+def partially_pruned(acc, rng):
+    """the same account cell with some of its children replaced by pruned branches (a Merkle-pruned view of it)"""
+    if not acc.refs:
+        return None
+    b = begin_cell().store_bits(acc.bits)
+    which = rng.randrange(len(acc.refs))
+    for j, r in enumerate(acc.refs):
+        b.store_ref(pruned(r) if j == which or rng.random() < 0.5 else r)
+    return b.end_cell()
 
 
 def shard_accounts(rng, accts):
@@ -297,6 +313,9 @@ def account_records(rng):
         ('forged_swapped_roots', False, [roots[1], roots[0]], blk, target, acc),
         ('forged_single_root', False, [roots[0]], blk, target, acc),
     ]
+    pp = partially_pruned(acc, rng)
+    if pp is not None:
+        cases.append(('forged_partially_pruned_account', False, roots, blk, target, pp))
     if n > 1:
         o_addr, o_acc = [x for x in accts if x[0] is not target][0]
         cases.append(('forged_neighbour_account', False, roots, blk, target, o_acc))
